@@ -208,7 +208,12 @@ def select(prop, tier, seed):
         if ver is None:
             return out
         if prop == "ALLT":
-            return [e for e in out if e["name"] not in ver]   # what is still to be measured
+            skip = set()
+            if os.environ.get("VERIF_SKIP_NOT_VERIFIED"):
+                import json
+                from pathlib import Path
+                skip = set(json.loads((Path(__file__).resolve().parent / "thorough_verified.json").read_text()).get("not_verified", {}))
+            return [e for e in out if e["name"] not in ver and e["name"] not in skip]   # what is still to be measured
         return [e for e in out if e.get("prop_tier", {}).get(prop, e["tier"]) != "thorough" or e["name"] in ver]
     slow = _slow()
     fast_roles = set(e["role"] for e in out if e["name"] not in slow)
